@@ -272,6 +272,12 @@ class Session:
         elif act == "EditReturned":
             _edit_returned(g, args[0], self.returned, h)
             ev["raised"], ev["fresh_raised"], ev["res_ok"], ev["obs"] = False, False, True, []
+        elif act == "EditInput":
+            # the caller overwrites, in place, what it handed to the constructor of this grid
+            G.edit_inputs(g)
+            g.__dict__["_verif_input_edited"] = True
+            self.digests[h] = {}
+            ev["raised"], ev["fresh_raised"], ev["res_ok"], ev["obs"] = False, False, True, []
         elif self.mode == "twin":
             o = outcome(lambda: call(g, act, args))
             self.last_fp = o
@@ -331,11 +337,16 @@ class Session:
         # (which may be views of the arrays the grid was built from), later differences are the caller's own doing
         if act == "Mutate" and args and args[0] == "inplace":
             self.grids[h].__dict__["_verif_inplace"] = True
-        ev["inputs"] = sorted("%d:%s" % (hh, n) for hh, gg in self.grids.items() if not gg.__dict__.get("_verif_inplace") for n in G.inputs_changed(gg))
+        ev["inputs"] = sorted(
+            "%d:%s" % (hh, n)
+            for hh, gg in self.grids.items()
+            if not gg.__dict__.get("_verif_inplace") and not gg.__dict__.get("_verif_input_edited")
+            for n in G.inputs_changed(gg)
+        )
         ev["tmpl"] = G.templates_changed()
         if ev["tmpl"]:
             G.templates_restore()
-        ev["earlier"] = self._earlier_changed(skip_last=act in ("EditExport", "EditReturned"), act=act, h=h, args=args)
+        ev["earlier"] = self._earlier_changed(skip_last=act in ("EditExport", "EditReturned", "EditInput"), act=act, h=h, args=args)
         return ev
 
     def _observe(self, act, args, o, fr, src, h):
@@ -514,7 +525,7 @@ def lineage(history, handle):
     cur = handle
     for i in range(len(history) - 1, -1, -1):
         act, h, args = history[i]
-        if act in ("EditExport", "EditReturned"):
+        if act in ("EditExport", "EditReturned", "EditInput"):
             continue
         if act == "Copy" and args[0] == cur:
             keep.append(i)
@@ -568,7 +579,7 @@ def replay_twin(history, sources):
                 if not ok:
                     bad.append("%d:%s" % (hh, name))
                     detail["%d:%s" % (hh, name)] = where
-        if hh == final_h and final_act not in ("EditExport", "EditReturned", "Mutate", "Copy") and lin and lin[-1] == history[-1]:
+        if hh == final_h and final_act not in ("EditExport", "EditReturned", "EditInput", "Mutate", "Copy") and lin and lin[-1] == history[-1]:
             o, w = s.last_fp, t.last_fp
             last["fresh_raised"] = w.raised
             if o.raised or w.raised:
